@@ -643,7 +643,7 @@ class StmtMixin:
             if allowed is True:
                 continue
             r = z3.Int('r!fr')
-            cond = [r >= 1, r < head_next] + [r != a for a in allowed]
+            cond = [r >= 1, r < head_next] + self.frame_conds(allowed, r)
             goal = z3.ForAll([r], z3.Implies(z3.And(*cond), z3.Select(arr, r) == z3.Select(old, r)))
             self.prove(f'{qn}::loop-frame(loop {k})[{key}]', goal, line=line)
 
